@@ -367,16 +367,16 @@ func c09FixFloat(kind int, v *pgVal, noNegZero bool) *pgVal {
 	if kind == pgKFloat {
 		b := uint32(v.I.Uint64())
 		e := int((b>>23)&0xff) - 127
-		if e != 128 && (e > 60 || e < -30) && b%6 != 0 {
-			ne := uint32(127 + e%24)
+		if e != 128 && (e > 60 || e < -20) && b%12 != 0 {
+			ne := uint32(127 + ((e%24)+24)%24 - 6)
 			v = pgNum(kind, big.NewInt(int64((b&^(uint32(0xff)<<23))|(ne<<23))))
 		}
 	}
 	if kind == pgKDouble {
 		b := v.I.Uint64()
 		e := int((b>>52)&0x7ff) - 1023
-		if e != 1024 && (e > 80 || e < -40) && b%6 != 0 {
-			ne := uint64(1023 + e%64)
+		if e != 1024 && (e > 80 || e < -20) && b%12 != 0 {
+			ne := uint64(1023 + ((e%32)+32)%32 - 8)
 			v = pgNum(kind, new(big.Int).SetUint64((b&^(uint64(0x7ff)<<52))|(ne<<52)))
 		}
 	}
@@ -621,10 +621,18 @@ type c09stats struct {
 var c09st = c09stats{byClass: map[int]int{}}
 
 func c09Run(c *pgCompiled, schemaFields []string, doc []byte, disallow bool, exp *pgVal, class int) {
+	c09RunConv(nil, c, schemaFields, doc, disallow, exp, class)
+}
+
+// cv == nil: a fresh BinaryConv (the pooled visitors are shared by all converters either way)
+func c09RunConv(cv *j2p.BinaryConv, c *pgCompiled, schemaFields []string, doc []byte, disallow bool, exp *pgVal, class int) {
 	var outb []byte
 	var err error
 	ok, _ := noPanic(func() {
-		cv := j2p.NewBinaryConv(conv.Options{DisallowUnknownField: disallow})
+		if cv == nil {
+			x := j2p.NewBinaryConv(conv.Options{DisallowUnknownField: disallow})
+			cv = &x
+		}
 		outb, err = cv.Do(context.Background(), c.Dyn, doc)
 	})
 	status := 0
@@ -663,6 +671,73 @@ func c09Run(c *pgCompiled, schemaFields []string, doc []byte, disallow bool, exp
 	}
 	fields := append(append([]string{}, schemaFields...), fb(disallow), fx(doc), fi(status), fx(outb), fi(ref), fi(class))
 	out.emit(901, fields...)
+}
+
+// History on one goroutine: one to three conversions that FAIL at different points (document cut off after an unknown
+// key, inside a skipped value, inside a known nested message, wrong JSON kind, unknown member under the disallow
+// option), then a valid document, judged as usual.  The visitor (stack, sp, inskip, globalFieldDesc) comes from a
+// sync.Pool, so whatever a failed conversion leaves behind is what the next one starts from.
+func c09History(r *rng, c *pgCompiled, sf []string, g *c09gen, v *pgVal, class int) {
+	root := c.S.Root
+	exp := c09Canon(c, v)
+	valid := jprint(r, g.message(v, root), r.bool())
+	// the valid document without its closing brace, ready for one more member
+	end := len(valid) - 1
+	for end > 0 && valid[end] != '}' {
+		end--
+	}
+	prefix := append([]byte{}, valid[:end]...)
+	empty := true
+	for _, b := range prefix[1:] {
+		if b != ' ' && b != '\t' && b != '\n' && b != '\r' {
+			empty = false
+		}
+	}
+	if !empty {
+		prefix = append(prefix, ',')
+	}
+	var shared *j2p.BinaryConv
+	if r.bool() {
+		x := j2p.NewBinaryConv(conv.Options{})
+		shared = &x
+	}
+	for n := 1 + r.intn(3); n > 0; n-- {
+		var bad []byte
+		dis := false
+		switch r.intn(8) {
+		case 0:
+			bad = append(append([]byte{}, prefix...), `"nosuch_key":`...)
+		case 1:
+			bad = append(append([]byte{}, prefix...), `"nosuch_key":tru}`...)
+		case 2:
+			bad = append(append([]byte{}, prefix...), `"nosuch_key":{"a":[1,{"b":`...)
+		case 3:
+			bad = append(append([]byte{}, prefix...), `"nosuch_key":"abc`...)
+		case 4:
+			bad = []byte(`{"nosuch_key":`)
+		case 5: // cut anywhere (inside known nested messages, lists, map pairs, strings, numbers)
+			if len(valid) > 2 {
+				bad = append([]byte{}, valid[:1+r.intn(len(valid)-2)]...)
+			} else {
+				bad = []byte(`{`)
+			}
+		case 6: // wrong JSON kind somewhere
+			t := g.message(v, root)
+			if !g.damage(t, root) {
+				t = jarr(jnum("1"))
+			}
+			bad = jprint(r, t, false)
+		default: // unknown member under the disallow option, after some known members
+			bad = append(append([]byte{}, prefix...), `"nosuch_key":1}`...)
+			dis = true
+		}
+		cv := shared
+		if dis {
+			cv = nil
+		}
+		c09RunConv(cv, c, sf, bad, dis, nil, 42)
+	}
+	c09RunConv(shared, c, sf, valid, false, exp, class)
 }
 
 // canonical form of an expectation: what the reference reports (drops default-valued singular scalars, keeps the rest)
@@ -791,10 +866,10 @@ func genC09(r *rng, n int) {
 	fld := c09Field(sw, "N", "ld_dbl")
 	// (a) length-prefix boundaries at depths 1..6: the innermost payload has size T, every level adds 2..5 bytes
 	targets := []int{120, 122, 124, 125, 126, 127, 128, 129, 130, 16370, 16374, 16378, 16380, 16381, 16382, 16383, 16384, 16385, 16386}
-	budgetA := n / 6
+	budgetA := n / 8
 	for i := 0; i < budgetA; i++ {
 		T := targets[r.intn(9)]
-		if r.chance(12) {
+		if r.chance(7) {
 			T = targets[9+r.intn(len(targets)-9)]
 		}
 		depth := 1 + r.intn(6)
@@ -854,10 +929,20 @@ func genC09(r *rng, n int) {
 	}
 	// (b) nesting near the stack limit (256 frames: root + 255): through messages (1 frame per level), lists of
 	// messages (2) and map values (3)
-	deep := [][2]int{{0, 250}, {0, 253}, {0, 254}, {0, 255}, {0, 256}, {0, 257}, {1, 126}, {1, 127}, {1, 128}, {1, 129}, {2, 84}, {2, 85}, {2, 86}, {3, 100}, {0, 40}, {1, 30}, {2, 20}}
+	// frames = 1 (root) + levels * {1,2,3}; the 256th push fails with the max-depth ERROR (never a panic): exact
+	// boundaries 255/256 levels, 127/128 lists, 85/86 maps, the half-way marks (a 128-frame stack would show there)
+	// and random depths of 100..300 frames through each kind and through a mixture
+	deep := [][2]int{{0, 254}, {0, 255}, {0, 256}, {0, 257}, {1, 126}, {1, 127}, {1, 128}, {1, 129}, {2, 84}, {2, 85}, {2, 86},
+		{0, 126}, {0, 127}, {0, 128}, {1, 63}, {1, 64}, {2, 42}, {2, 43},
+		{0, 100 + r.intn(200)}, {1, 50 + r.intn(100)}, {2, 33 + r.intn(67)}, {3, 50 + r.intn(80)}, {3, 100 + r.intn(60)}}
 	for _, d := range deep {
 		inner := c09Msg(pgFV{F: fa_, V: pgNum(5, big.NewInt(5))})
 		emitVal(c09Nest(r, sw, inner, d[1], d[0], false), 4, false)
+	}
+	// (b') histories on the pooled visitor
+	for i := 0; i < n/20; i++ {
+		inner := c09Msg(pgFV{F: fa_, V: pgNum(5, big.NewInt(int64(1+r.intn(300))))}, pgFV{F: fs_, V: pgStr(pgKString, c09Pad(1+r.intn(5)))})
+		c09History(r, sw, swf, g, c09Nest(r, sw, inner, r.intn(5), 3, true), 40)
 	}
 	// (c) map key kinds and unsigned boundaries
 	{
@@ -981,6 +1066,10 @@ func genC09(r *rng, n int) {
 			if clean {
 				v = c09Clean(r, nil, raw, pgKMessage)
 				class = 1
+			}
+			if clean && r.chance(8) {
+				c09History(r, c, sf, gg, v, 41)
+				continue
 			}
 			exp := c09Canon(c, v)
 			tree := gg.message(v, s.Root)
